@@ -12,4 +12,4 @@ d=seeded/r$R-$P; mkdir -p $d
 cp $W/_seeded/patch.diff $W/_seeded/demo_test.go $d/; cp $W/_seeded/README.md $d/AUTHOR-README.md
 echo "$DEST | $*" > $d/.demo
 git -C /repo worktree remove --force $W
-tools/seeded-check.sh $P $d/patch.diff 2>&1 | tail -1 | cut -c1-400
+[ -n "$SKIPCHECK" ] || tools/seeded-check.sh $P $d/patch.diff 2>&1 | tail -1 | cut -c1-400
